@@ -908,6 +908,50 @@ impl Verifier {
                     }
                 }
             }
+            if bad.is_some() && set_ok {
+                // explained-by predicate F3 in the per-keyspace comparison: a keyspace equals an allowed prefix state
+                // except for keys whose latest operation at that prefix is a tombstone written by bulk ingestion and
+                // that show exactly the (journaled) value that tombstone removed
+                let mut all_explained = true;
+                let mut extra_total = 0;
+                for (name, m) in &got {
+                    let exact = (lo..=hi).any(|p| self.states[p].get(name).is_some_and(|x| x == m));
+                    if exact {
+                        continue;
+                    }
+                    let explained = (lo..=hi).any(|p| {
+                        let Some(e) = self.states[p].get(name) else { return false };
+                        if e.iter().any(|(k, v)| m.get(k) != Some(v)) {
+                            return false;
+                        }
+                        let mut extra = 0;
+                        for (k, v) in m {
+                            if !e.contains_key(k) {
+                                if self.ingest_tombstoned[p].get(&(name.clone(), k.clone())) == Some(v) {
+                                    extra += 1;
+                                } else {
+                                    return false;
+                                }
+                            }
+                        }
+                        extra_total += extra;
+                        extra > 0
+                    });
+                    if !explained {
+                        all_explained = false;
+                        break;
+                    }
+                }
+                if all_explained && extra_total > 0 {
+                    stats.inc("images.known_ingested_tombstone_gc");
+                    return Err(Deviation::new(
+                        "known:ingested-tombstone-gc-journal-resurrection",
+                        format!(
+                            "{what}: every keyspace equals an allowed prefix state except for key(s) whose latest operation is a tombstone written by bulk ingestion and that show the journaled value that tombstone removed"
+                        ),
+                    ));
+                }
+            }
             match bad {
                 None => {
                     stats.inc("images.verified");
